@@ -460,6 +460,16 @@ func TestC05(t *testing.T) {
 			}
 			runCase := func(c *c05Case, classes ...string) {
 				f, res := c05Run(c)
+				if f != nil && f.Clause == "harness" {
+					// the machinery, not clover: strace failing to attach / listen on a loaded machine, a
+					// worker that could not be started. One more try; a tracer problem that persists makes
+					// the case inconclusive (counted), never a violation
+					f, res = c05Run(c)
+					if f != nil && f.Clause == "harness" && (strings.Contains(f.Detail, "strace") || strings.Contains(f.Detail, "ptrace") || strings.Contains(f.Detail, "cannot start worker")) {
+						col.Add("inconclusive_cases_tracer_or_worker_start", 1)
+						return
+					}
+				}
 				if f != nil {
 					violate(rt, "C05", "c05", c, f)
 				}
